@@ -213,6 +213,16 @@ def random_schedule(rng, tree, targets, reloads, claims=None):
     return {"order": rng.choice(ORDERS), "trans": trans}
 
 
+def styled_schedule(rng, tree, targets, reloads, claims, reorg, fwd, order):
+    """Confirm interface throughout, one fixed style (used to cover the named styles systematically)."""
+    trans, old = [], 0
+    for i, t in enumerate(targets):
+        trans.append({"reload": bool(reloads[i]), "claim": bool(claims and claims[i]),
+                      "ops": confirm_ops(rng, tree, old, t, reorg, fwd)})
+        old = t
+    return {"order": order, "trans": trans}
+
+
 def canonical_schedule(tree, targets, reloads, claims=None):
     trans, old = [], 0
     for i, t in enumerate(targets):
@@ -709,6 +719,7 @@ def run(tier, seed):
         r.pop("out")
         mcs.append((cfg, r))
     cap = 12000 if thorough else 1600
+    tlc_scripts.sort(key=lambda x: json.dumps(x, sort_keys=True))    # TLC prints in worker order
     if len(tlc_scripts) > cap:
         tlc_scripts = rng.sample(tlc_scripts, cap)
 
@@ -733,7 +744,11 @@ def run(tier, seed):
         for tree, targets in sweep_histories(metas[n], ard):
             reloads = [False] + [rng.random() < 0.15 for _ in targets[1:]]
             plan.add(n, tree, targets, reloads, None, "sweep")
-            for _ in range(per_hist):
+            # the two "skipping" Confirm styles, systematically (tip first / transactions first)
+            plan.add(n, tree, targets, reloads, styled_schedule(rng, tree, targets, reloads, None, "best_fork", "skip_bestfirst", "mgr_first"), "sweep")
+            plan.add(n, tree, targets, reloads, styled_schedule(rng, tree, targets, reloads, None, "unconf_desc", "skip_txfirst", "mon_first"), "sweep")
+            n_sweep += 2
+            for _ in range(per_hist - 1 if not thorough else per_hist):
                 plan.add(n, tree, targets, reloads, random_schedule(rng, tree, targets, reloads), "sweep")
                 n_sweep += 1
     n_late = 0
